@@ -658,7 +658,10 @@ func (s *Server) handleLCPTermRequest(session *Session, pkt *LCPPacket) {
 	}
 	s.sendPPPPacket(session, ProtocolLCP, resp.Serialize())
 
-	// Terminate session
+	// Terminate session: the client address goes back to the pool
+	if s.clientIPPool != nil {
+		s.clientIPPool.Release(session.SessionID)
+	}
 	session.SetState(StateClosed)
 	s.sessions.RemoveSession(session.ID)
 }
@@ -952,7 +955,7 @@ func (s *Server) cleanupLoop(ctx context.Context) {
 			if timeout == 0 {
 				timeout = 5 * time.Minute
 			}
-			removed := s.sessions.CleanupExpired(timeout)
+			removed := s.expireSessions(timeout)
 			if removed > 0 {
 				s.logger.Info("Cleaned up expired PPPoE sessions",
 					zap.Int("count", removed),
@@ -960,6 +963,22 @@ func (s *Server) cleanupLoop(ctx context.Context) {
 			}
 		}
 	}
+}
+
+// expireSessions removes the sessions that have been inactive for longer than
+// timeout and returns their client addresses to the pool.
+func (s *Server) expireSessions(timeout time.Duration) int {
+	before := s.sessions.GetAllSessions()
+	removed := s.sessions.CleanupExpired(timeout)
+	if removed > 0 && s.clientIPPool != nil {
+		for _, session := range before {
+			// a session that is no longer registered under its ID is gone
+			if s.sessions.GetSession(session.ID) != session {
+				s.clientIPPool.Release(session.SessionID)
+			}
+		}
+	}
+	return removed
 }
 
 // GetSessionCount returns the number of active sessions
